@@ -7,9 +7,11 @@ From Verif Require Import BGate PyVal Ast State Unroll Corr Spec Transforms Tran
 Import ListNotations.
 Open Scope Z_scope.
 
-(* every count / flag / depth / validate answer is a function of the current program alone *)
+(* every count / depth / validate answer is a function of the current program alone; a flag answer of the
+   program and of whether an unrolled view exists (the flat program is then the current one) *)
 Theorem C10_answers_depend_on_program m m' o :
-  program_query o = true -> sp_prog m = sp_prog m' -> sp_q2 m = sp_q2 m' -> snd (query m o) = snd (query m' o).
+  program_query o = true -> sp_prog m = sp_prog m' -> sp_q2 m = sp_q2 m' ->
+  (view_query o = true -> sp_unrolled m = sp_unrolled m') -> snd (query m o) = snd (query m' o).
 Proof. exact (answers_depend_on_program m m' o). Qed.
 Print Assumptions C10_answers_depend_on_program.
 
@@ -18,9 +20,10 @@ Theorem C10_queries_keep_program m o : sp_prog (fst (query m o)) = sp_prog m /\ 
 Proof. exact (query_keeps_program m o). Qed.
 Print Assumptions C10_queries_keep_program.
 
-(* hence repeating them, in any number and order, never changes any answer *)
+(* hence repeating them, in any number and order, never changes any answer (for the flags: as long as no
+   unrolled view is produced in between -- unroll() legitimately changes what "the current program" is) *)
 Theorem C10_answer_stable_under_queries m os o :
-  program_query o = true -> snd (query (run_q m os) o) = snd (query m o).
+  program_query o = true -> (view_query o = true -> ~ In OUnroll os) -> snd (query (run_q m os) o) = snd (query m o).
 Proof. exact (answer_stable_under_queries m os o). Qed.
 Print Assumptions C10_answer_stable_under_queries.
 
